@@ -243,6 +243,7 @@ func c08Families() []c08Family {
 	text("cte-long-verbatim", func(n int) string { return "\"\\.ZZ " + strings.Repeat("a", n) + "ZZ\"" })
 	text("cte-long-media", func(n int) string { return "@application/x[" + strings.Repeat("ff ", n) + "]" })
 	text("cte-garbage", func(n int) string { return strings.Repeat("\x01", n) })
+	text("cte-invalid-utf8", func(n int) string { return strings.Repeat("\x9a", n) })
 	text("cte-many-errors", func(n int) string { return strings.Repeat("] ", n) })
 	return fs
 }
@@ -382,6 +383,14 @@ func runC08(r *Run) {
 		}
 		n := scales[rng.Intn(len(scales))]
 		switch f.name {
+		case "cte-garbage", "cte-invalid-utf8", "cte-many-errors":
+			if rng.P(1, 2) {
+				n = 100000 // one syntax error per character: the cost of an error must not depend on the document
+			}
+		case "cte-many-ints", "cte-many-strings", "cte-many-pairs", "cte-many-markers", "cte-many-huge-exponents", "cte-many-line-comments":
+			if n > 100000 {
+				n = 100000 // the ANTLR parse is linear but slow (microseconds per token): stay below the watchdog
+			}
 		case "cbe-long-string", "cbe-long-u8-array":
 			if rng.P(1, 3) {
 				n = 3 << 20 // an honest array of megabytes: the buffer must still grow geometrically
